@@ -228,7 +228,9 @@ open IsoVerif.Core
 
 def verdictOf (impl : List String) : String :=
   match impl with
-  | m :: _ => if m == "nopanic" || m == "skipped-cyclic" then "ok" else "bad:" ++ m
+  | m :: _ =>
+    -- `config-rejected`: the configuration file itself is malformed (outside the property's quantifier)
+    if m == "nopanic" || m == "skipped-cyclic" || m == "config-rejected" then "ok" else "bad:" ++ m
   | [] => "bad:empty-answer"
 
 def runModelled (wire : String) (impl : List String) : String :=
@@ -253,8 +255,10 @@ def handle (fs : List String) : String :=
   | "det" :: _ => Det.run impl
   | "detdiag" :: _ => Det.run impl
   | "detdup" :: _ => Det.run impl
+  | "detep" :: _ => Det.run impl
   | ["cm", _, wire] => Crash.runModelled wire impl
   | "co" :: _ => Crash.runEcho impl
+  | "cof" :: _ => Crash.runEcho impl
   | "raw" :: _ => Crash.runEcho impl
   | "watch" :: _ => Crash.runEcho impl
   | _ => "bad-op\tok"
